@@ -48,7 +48,7 @@ def trees(draw):
                 # it) so that no include line ever has two documented candidates by accident
                 if child.place in ('same', 'sub') and draw(st.booleans()):   # (a name with `..` is also searched relative to each -i directory)
                     child.name = draw(st.sampled_from(['body.asm', 'defs.asm']))
-                child.form = draw(st.integers(0, 7))    # 5..7: the written name gets a leading ./
+                child.form = draw(st.integers(0, 13))    # 7..13: the written name gets a leading ./
                 if ambiguous[0] and child.place == 'same' and child.name.startswith('f') and all(e[0] == 'line' for e in child.entries):
                     ambiguous[0] = False
                     child.alt_lines = [e[1] for e in child.entries] + ['addi x0, x0, 0']
@@ -194,11 +194,11 @@ def write_tree(node, directory, rootdir, names_used, stats, depth=0, anc_dirs=()
             else:
                 child.alt_lines = None
         form = child.form
-        if form >= 5:
+        if form >= 7:
             # ./name, ./sub/name, ./../name: the same file for every directory the name is looked up in
             written = './' + written
             stats['dot_slash_names'] = stats.get('dot_slash_names', 0) + 1
-        line = ['include %s', 'include "%s"', "include '%s'", 'include %s  # pulled in', 'include   %s'][form % 5] % written
+        line = ['include %s', 'include "%s"', "include '%s'", 'include %s  # pulled in', 'include   %s', 'include %s# glued comment', 'include "%s"#glued'][form % 7] % written
         child.include_line = line
         text.append(line)
         stats['names'].append(os.path.basename(path))
